@@ -9,6 +9,8 @@
 (*   "addInGoroutine"  the wait group is joined by the connection goroutine itself    *)
 (*   "noDeadline"      no read deadline is armed                                      *)
 (*   "noWait"          Serve does not wait for the connection goroutines              *)
+(*   "closeErrNoWait"  Serve skips the wait when closing the listener reports an error *)
+(*                     (it was already closed by the operator)                        *)
 EXTENDS Integers, Sequences, FiniteSets, TLC
 
 CONSTANTS Conns, MaxPkts, Defects,
@@ -56,20 +58,27 @@ Cancel == /\ ctx = "live" /\ ctx' = "cancelled" /\ Env(<<"cancel", 0>>)
 \* the accept deadline (10 s) expires: Accept returns a temporary error and the loop polls its context
 Kick == /\ acc = "accept" /\ offered = {} /\ acc' = "poll" /\ Env(<<"kick", 0>>)
         /\ UNCHANGED << ctx, lis, offered, cs, armed, inp, gate, hgate, wg, gAcc, npk >>
+\* the operator closes the listener itself (the only way to unblock Accept before its deadline)
+OperatorClose == /\ lis = "open" /\ acc # "returned" /\ lis' = "closed" /\ Env(<<"lclose", 0>>)
+                 /\ UNCHANGED << ctx, acc, offered, cs, armed, inp, gate, hgate, wg, gAcc, npk >>
 \* the read deadline (15 s) of a blocked read expires
 Fire(c) == /\ cs[c] = "read" /\ armed[c] /\ inp[c] \in {"none", "partial"}
            /\ cs' = [cs EXCEPT ![c] = "exit"] /\ Env(<<"fire", c>>)
            /\ UNCHANGED << ctx, acc, lis, offered, armed, inp, gate, hgate, wg, gAcc, npk >>
 
 \* ---- acceptor (Serve) ------------------------------------------------------
+\* Accept on a closed listener fails for good: Serve leaves its loop
+AcceptFatal == /\ acc = "accept" /\ lis = "closed" /\ acc' = "closing"
+               /\ UNCHANGED << ctx, lis, offered, cs, armed, inp, gate, hgate, wg, gAcc, npk, sched >>
 Poll == /\ acc = "poll" /\ acc' = IF ctx = "cancelled" THEN "closing" ELSE "accept"
         /\ UNCHANGED << ctx, lis, offered, cs, armed, inp, gate, hgate, wg, gAcc, npk, sched >>
-Accept(c) == /\ acc = "accept" /\ c \in offered
+Accept(c) == /\ acc = "accept" /\ lis = "open" /\ c \in offered
              /\ offered' = offered \ {c} /\ cs' = [cs EXCEPT ![c] = "spawned"]
              /\ wg' = IF D("addInGoroutine") THEN wg ELSE wg + 1
              /\ acc' = "poll"
              /\ UNCHANGED << ctx, lis, armed, inp, gate, hgate, gAcc, npk, sched >>
-CloseListener == /\ acc = "closing" /\ lis' = "closed" /\ acc' = "waiting"
+CloseListener == /\ acc = "closing" /\ lis' = "closed"
+                 /\ acc' = IF lis = "closed" /\ D("closeErrNoWait") THEN "returned" ELSE "waiting"
                  /\ UNCHANGED << ctx, offered, cs, armed, inp, gate, hgate, wg, gAcc, npk, sched >>
 WaitDone == /\ acc = "waiting" /\ (wg = 0 \/ D("noWait")) /\ acc' = "returned"
             /\ UNCHANGED << ctx, lis, offered, cs, armed, inp, gate, hgate, wg, gAcc, npk, sched >>
@@ -92,14 +101,14 @@ HandlerDone(c) == /\ cs[c] = "handler" /\ hgate[c] /\ cs' = [cs EXCEPT ![c] = "l
 Exit(c) == /\ cs[c] = "exit" /\ cs' = [cs EXCEPT ![c] = "done"] /\ gAcc' = gAcc - 1 /\ wg' = wg - 1
            /\ UNCHANGED << ctx, acc, lis, offered, armed, inp, gate, hgate, npk, sched >>
 
-Internal == Poll \/ CloseListener \/ WaitDone \/ \E c \in Conns : Accept(c) \/ Start(c) \/ LoopTop(c) \/ ReadDone(c) \/ HandlerDone(c) \/ Exit(c)
-Environment == Cancel \/ Kick \/ \E c \in Conns : Offer(c) \/ Release(c) \/ Feed(c, "packet") \/ Feed(c, "partial") \/ Hangup(c) \/ HRelease(c) \/ Fire(c)
+Internal == Poll \/ AcceptFatal \/ CloseListener \/ WaitDone \/ \E c \in Conns : Accept(c) \/ Start(c) \/ LoopTop(c) \/ ReadDone(c) \/ HandlerDone(c) \/ Exit(c)
+Environment == Cancel \/ Kick \/ OperatorClose \/ \E c \in Conns : Offer(c) \/ Release(c) \/ Feed(c, "packet") \/ Feed(c, "partial") \/ Hangup(c) \/ HRelease(c) \/ Fire(c)
 Next == Internal \/ Environment
 Spec == Init /\ [][Next]_vars
 
 \* fairness for the liveness property: every goroutine keeps running, gates are eventually released, accept and
 \* read deadlines eventually expire
-Fair == /\ WF_vars(Poll) /\ WF_vars(CloseListener) /\ WF_vars(WaitDone) /\ WF_vars(Kick)
+Fair == /\ WF_vars(Poll) /\ WF_vars(AcceptFatal) /\ WF_vars(CloseListener) /\ WF_vars(WaitDone) /\ WF_vars(Kick)
         /\ \A c \in Conns : /\ WF_vars(Accept(c)) /\ WF_vars(Start(c)) /\ WF_vars(LoopTop(c)) /\ WF_vars(ReadDone(c))
                             /\ WF_vars(HandlerDone(c)) /\ WF_vars(Exit(c)) /\ WF_vars(Release(c)) /\ WF_vars(HRelease(c)) /\ SF_vars(Fire(c))
 LiveSpec == Spec /\ Fair
